@@ -566,8 +566,12 @@ Definition osrel (a b : option simstate) : Prop :=
   | _, _ => False
   end.
 
-Lemma sim_step_perm sched cf t st st' :
-  equivariant sched -> srel st st' -> osrel (sim_step sched cf t st) (sim_step sched cf t st').
+(* the same, for two schedulers (e.g. closures over the original / permuted infrastructure) *)
+Definition equivariant2 (sched sched' : scheduler) : Prop :=
+  forall t v v', Permutation v v' -> NoDup (map si_station v) -> same_dict (sched t v) (sched' t v').
+
+Lemma sim_step_perm2 sched sched' cf t st st' :
+  equivariant2 sched sched' -> srel st st' -> osrel (sim_step sched cf t st) (sim_step sched' cf t st').
 Proof.
   intros Heq [P [N [EL EW]]]. unfold sim_step.
   pose proof (process_events_orel t (cf_sessions cf) _ _ N P) as R1. unfold orel in R1.
@@ -583,19 +587,19 @@ Proof.
   - pose proof (Heq t _ _ (active_perm _ _ R1) (active_nodup _ N1)) as SD.
     pose proof (apply_schedule_perm t _ _ _ _ N1 R1 SD) as R2. unfold orel in R2.
     destruct (apply_schedule t (sched t (active l1)) l1) as [l2|] eqn:E2;
-      destruct (apply_schedule t (sched t (active l1')) l1') as [l2'|] eqn:E2'; try contradiction; simpl; auto.
+      destruct (apply_schedule t (sched' t (active l1')) l1') as [l2'|] eqn:E2'; try contradiction; simpl; auto.
     assert (N2 : NoDup (map fst l2)) by (rewrite (apply_schedule_keys _ _ _ _ E2); exact N1).
     pose proof (update_pilots_perm t (cf_period cf) _ _ R2) as R3. unfold orel in R3.
     assert (W : (match sched t (active l1) with
                  | [] => ss_warn st
                  | _ => ss_warn st ++ [(t, negb (feasible (cf_abs_tol cf) (cf_rel_tol cf) (cf_constraints cf) (sched t (active l1)) l1))]
                  end)
-                = (match sched t (active l1') with
+                = (match sched' t (active l1') with
                    | [] => ss_warn st
-                   | _ => ss_warn st ++ [(t, negb (feasible (cf_abs_tol cf) (cf_rel_tol cf) (cf_constraints cf) (sched t (active l1')) l1'))]
+                   | _ => ss_warn st ++ [(t, negb (feasible (cf_abs_tol cf) (cf_rel_tol cf) (cf_constraints cf) (sched' t (active l1')) l1'))]
                    end)).
     { rewrite (feasible_perm _ _ _ _ _ _ _ _ _ R1 SD E2). destruct SD as [Ps _].
-      destruct (sched t (active l1)), (sched t (active l1')); auto.
+      destruct (sched t (active l1)), (sched' t (active l1')); auto.
       - apply Permutation_nil in Ps. discriminate.
       - symmetry in Ps. apply Permutation_nil in Ps. discriminate. }
     rewrite <- W.
@@ -606,6 +610,19 @@ Proof.
     destruct (update_pilots t (cf_period cf) l1) as [l3|] eqn:E3;
       destruct (update_pilots t (cf_period cf) l1') as [l3'|] eqn:E3'; try contradiction; simpl; auto.
     repeat split; auto. simpl. rewrite (update_pilots_keys _ _ _ _ E3). exact N1.
+Qed.
+
+Lemma sim_step_perm sched cf t st st' :
+  equivariant sched -> srel st st' -> osrel (sim_step sched cf t st) (sim_step sched cf t st').
+Proof. apply sim_step_perm2. Qed.
+
+Lemma sim_loop_perm2 sched sched' cf : equivariant2 sched sched' ->
+  forall fuel t st st', srel st st' -> osrel (sim_loop sched cf t fuel st) (sim_loop sched' cf t fuel st').
+Proof.
+  intro Heq. induction fuel as [|f IH]; intros t st st' R; simpl; auto.
+  pose proof (sim_step_perm2 sched sched' cf t st st' Heq R) as R1. unfold osrel in R1.
+  destruct (sim_step sched cf t st) as [s1|]; destruct (sim_step sched' cf t st') as [s1'|];
+    try contradiction; simpl; auto.
 Qed.
 
 Lemma sim_loop_perm sched cf : equivariant sched ->
@@ -641,3 +658,60 @@ Proof.
   destruct R as [Pp [Nn [EL EW]]].
   exists st'. repeat split; auto. intro s. symmetry. now apply zassoc_perm.
 Qed.
+
+Lemma thm_station_perm2 sched sched' sts sts' cf st :
+  equivariant2 sched sched' -> NoDup (map fst sts) -> Permutation sts sts' ->
+  simulate sched sts cf = Some st ->
+  exists st', simulate sched' sts' cf = Some st'
+    /\ (forall s, zassoc s (ss_slots st') = zassoc s (ss_slots st))
+    /\ Permutation (ss_slots st) (ss_slots st')
+    /\ ss_warn st' = ss_warn st /\ ss_last st' = ss_last st.
+Proof.
+  intros Heq N P Hrun. unfold simulate in *.
+  assert (R0 : srel {| ss_slots := init_slots sts; ss_last := None; ss_warn := [] |}
+                    {| ss_slots := init_slots sts'; ss_last := None; ss_warn := [] |}).
+  { repeat split; simpl; auto.
+    - unfold init_slots. now apply Permutation_map.
+    - now rewrite init_slots_keys. }
+  pose proof (sim_loop_perm2 sched sched' cf Heq (horizon (cf_sessions cf)) O _ _ R0) as R. unfold osrel in R.
+  rewrite Hrun in R.
+  destruct (sim_loop sched' cf 0 (horizon (cf_sessions cf))
+                     {| ss_slots := init_slots sts'; ss_last := None; ss_warn := [] |}) as [st'|]; [|contradiction].
+  destruct R as [Pp [Nn [EL EW]]].
+  exists st'. repeat split; auto. intro s. symmetry. now apply zassoc_perm.
+Qed.
+
+(* ------------------------------------------------------------------------------------------ *)
+(* sorting with distinct keys does not depend on the input order                              *)
+(* ------------------------------------------------------------------------------------------ *)
+Lemma insert_by_comm key a b l :
+  key a <> key b -> insert_by key a (insert_by key b l) = insert_by key b (insert_by key a l).
+Proof.
+  intro N. induction l as [|x l IH]; simpl.
+  - destruct (Z.leb (key a) (key b)) eqn:E1; destruct (Z.leb (key b) (key a)) eqn:E2; auto.
+    + apply Z.leb_le in E1, E2. lia.
+    + apply Z.leb_gt in E1, E2. lia.
+  - destruct (Z.leb (key b) (key x)) eqn:Eb; destruct (Z.leb (key a) (key x)) eqn:Ea; simpl;
+      rewrite ?Ea, ?Eb; simpl.
+    + destruct (Z.leb (key a) (key b)) eqn:E1; destruct (Z.leb (key b) (key a)) eqn:E2; simpl; rewrite ?Ea, ?Eb; auto.
+      * apply Z.leb_le in E1, E2. lia.
+      * apply Z.leb_gt in E1, E2. lia.
+    + replace (Z.leb (key a) (key b)) with false; auto.
+      symmetry. apply Z.leb_gt. apply Z.leb_le in Eb. apply Z.leb_gt in Ea. lia.
+    + replace (Z.leb (key b) (key a)) with false; auto.
+      symmetry. apply Z.leb_gt. apply Z.leb_le in Ea. apply Z.leb_gt in Eb. lia.
+    + now rewrite IH.
+Qed.
+
+Lemma sort_by_perm key l l' :
+  NoDup (map key l) -> Permutation l l' -> sort_by key l = sort_by key l'.
+Proof.
+  intros N P. induction P; simpl; auto.
+  - inversion N; subst. now rewrite IHP.
+  - apply insert_by_comm. simpl in N. inversion N; subst. intro E. apply H1. left. now symmetry.
+  - rewrite IHP1; auto. apply IHP2. eapply Permutation_NoDup; [|exact N]. now apply Permutation_map.
+Qed.
+
+Lemma sorted_equivariant key alloc t v v' :
+  NoDup (map key v) -> Permutation v v' -> sched_sorted key alloc t v = sched_sorted key alloc t v'.
+Proof. intros N P. unfold sched_sorted. now rewrite (sort_by_perm key v v' N P). Qed.
